@@ -154,10 +154,103 @@ Definition agrees (x : expect) (out : outcome) : bool :=
 Definition agrees_sound (x : expect) (out : outcome) : bool :=
   match out with Fail => true | Ok _ => agrees x out end.
 
-Record mstate := mkM { ms_modes : modes; ms_deployed : bool; ms_prev : obs }.
-Definition mstate0 : mstate := mkM modes0 false (mkObs 0 0 [] []).
+(* ------------------------------------------------------------------------- *)
+(* The rule table itself: rule sets (up to the documented limits) built by    *)
+(* any history of add / remove / update rule, signer and policy operations.   *)
+(* What the getters show must (a) be a well-formed table within the limits,   *)
+(* (b) change ONLY through a successful entry point, by exactly the requested *)
+(* edit - in particular it must not change while ledgers merely pass (only    *)
+(* valid_until makes a rule lapse, and that is not a change of the table),    *)
+(* and (c) never reuse a rule id.                                              *)
+(* ------------------------------------------------------------------------- *)
+Definition same_fp (r1 r2 : rule) : bool :=
+  fp_eqb (r_type r1, r_signers r1, r_policies r1) (r_type r2, r_signers r2, r_policies r2).
+Fixpoint fp_unique (T : list rule) : bool :=
+  match T with [] => true | r :: rest => negb (existsb (same_fp r) rest) && fp_unique rest end.
+Fixpoint ids_increasing (lo : Z) (T : list rule) : bool :=
+  match T with [] => true | r :: rest => (lo <? r_id r) && ids_increasing (r_id r) rest end.
+Definition rule_within (c : cfg) (r : rule) : bool :=
+  nodup_s (r_signers r) && nodup_p (r_policies r)
+  && (zlen (r_signers r) <=? max_signers c) && (zlen (r_policies r) <=? max_policies c)
+  && negb (isnil (r_signers r) && isnil (r_policies r)).
+Definition ids_consistent (T : list rule) (tl : ctype * option (list Z)) : bool :=
+  option_eqb (list_eqb Z.eqb) (snd tl) (Some (map r_id (filter (fun r => ctype_eqb (r_type r) (fst tl)) T))).
 
-Definition mon_step (m : mstate) (it : item) : bool :=
+Definition table_ok (c : cfg) (ob : obs) : bool :=
+  let T := ob_rules ob in
+  (ob_count ob =? zlen T) && (zlen T <=? Z.max 0 (max_rules c))
+  && ids_increasing (-1) T && forallb (rule_within c) T && fp_unique T
+  && forallb (ids_consistent T) (ob_ids ob).
+
+Definition same_table (o1 o2 : obs) : bool :=
+  (ob_count o1 =? ob_count o2) && list_eqb rule_eqb (ob_rules o1) (ob_rules o2) && list_eqb ids_eqb (ob_ids o1) (ob_ids o2).
+
+(* the requested edit *)
+Definition find_id (id : Z) (T : list rule) : option rule := find (fun r => r_id r =? id) T.
+Definition upd (id : Z) (f : rule -> rule) (T : list rule) : list rule :=
+  map (fun r => if r_id r =? id then f r else r) T.
+Definition with_name (n : N) (r : rule) := mkRule (r_id r) (r_type r) n (r_valid r) (r_signers r) (r_policies r).
+Definition with_valid (v : option Z) (r : rule) := mkRule (r_id r) (r_type r) (r_name r) v (r_signers r) (r_policies r).
+Definition with_signers (f : list signer -> list signer) (r : rule) :=
+  mkRule (r_id r) (r_type r) (r_name r) (r_valid r) (f (r_signers r)) (r_policies r).
+Definition with_policies (f : list policy -> list policy) (r : rule) :=
+  mkRule (r_id r) (r_type r) (r_name r) (r_valid r) (r_signers r) (f (r_policies r)).
+
+(* the table after a successful entry point, from the table before it; None = cannot have succeeded *)
+Definition expected_table (maxid : Z) (T : list rule) (op : adminop) (ret : option rule) : option (list rule) :=
+  match op with
+  | AddRule t name valid signers policies =>
+      match ret with
+      | Some r => if (maxid <? r_id r) && rule_eqb r (mkRule (r_id r) t name valid signers (map fst policies))
+                  then Some (T ++ [r]) else None                      (* a NEW id, the rule as requested, appended *)
+      | None => None
+      end
+  | UpdName id name =>
+      match find_id id T with
+      | Some _ => let T' := upd id (with_name name) T in
+                  if option_eqb rule_eqb ret (find_id id T') then Some T' else None
+      | None => None
+      end
+  | UpdValid id valid =>
+      match find_id id T with
+      | Some _ => let T' := upd id (with_valid valid) T in
+                  if option_eqb rule_eqb ret (find_id id T') then Some T' else None
+      | None => None
+      end
+  | RemoveRule id =>
+      match find_id id T with
+      | Some _ => Some (filter (fun r => negb (r_id r =? id)) T)
+      | None => None
+      end
+  | AddSigner id s =>
+      match find_id id T with
+      | Some r => if mem_s s (r_signers r) then None else Some (upd id (with_signers (fun l => l ++ [s])) T)
+      | None => None
+      end
+  | RemoveSigner id s =>
+      match find_id id T with
+      | Some r => if mem_s s (r_signers r)
+                  then Some (upd id (with_signers (filter (fun x => negb (signer_eqb s x)))) T) else None
+      | None => None
+      end
+  | AddPolicy id p _ =>
+      match find_id id T with
+      | Some r => if mem_p p (r_policies r) then None else Some (upd id (with_policies (fun l => l ++ [p])) T)
+      | None => None
+      end
+  | RemovePolicy id p =>
+      match find_id id T with
+      | Some r => if mem_p p (r_policies r)
+                  then Some (upd id (with_policies (filter (fun x => negb (N.eqb p x)))) T) else None
+      | None => None
+      end
+  end.
+
+Record mstate := mkM { ms_modes : modes; ms_deployed : bool; ms_prev : obs; ms_maxid : Z }.
+Definition mstate0 : mstate := mkM modes0 false (mkObs 0 0 [] []) (-1).
+
+(* the authorisation clauses (above) *)
+Definition auth_step (m : mstate) (it : item) : bool :=
   let '(cl, out, _) := it in
   if negb (ms_deployed m) then true else
   let T := ob_rules (ms_prev m) in
@@ -170,6 +263,34 @@ Definition mon_step (m : mstate) (it : item) : bool :=
   | _ => true
   end.
 
+(* the table clauses *)
+Definition table_step (c : cfg) (m : mstate) (it : item) : bool :=
+  let '(cl, out, ob) := it in
+  let prev := ms_prev m in
+  if negb (ms_deployed m) then
+    match cl, out with
+    | Construct signers policies, Ok _ =>
+        table_ok c ob &&
+        match ob_rules ob with
+        | [r] => (ms_maxid m <? r_id r) && rule_eqb r (mkRule (r_id r) TDefault 0%N None signers (map fst policies))
+        | _ => false
+        end
+    | _, _ => true
+    end
+  else
+    table_ok c ob &&
+    match cl, out with
+    | Admin _ _ op, Ok (ret, _) =>
+        match expected_table (ms_maxid m) (ob_rules prev) op ret with
+        | Some T' => list_eqb rule_eqb (ob_rules ob) T'
+        | None => false
+        end && (ob_now ob =? ob_now prev)
+    | Advance n, Ok _ => same_table prev ob && (ob_now ob =? ob_now prev + n)   (* ledgers pass: nothing lapses *)
+    | _, _ => same_table prev ob && (ob_now ob =? ob_now prev)                  (* refused or read-only: nothing changes *)
+    end.
+
+Definition mon_step (c : cfg) (m : mstate) (it : item) : bool := auth_step m it && table_step c m it.
+
 Definition mon_next (m : mstate) (it : item) : mstate :=
   let '(cl, out, ob) := it in
   mkM (match cl, out with
@@ -179,16 +300,17 @@ Definition mon_next (m : mstate) (it : item) : mstate :=
        | _, _ => ms_modes m
        end)
       (match cl, out with Construct _ _, Ok _ => true | _, _ => ms_deployed m end)
-      ob.
+      ob
+      (fold_left Z.max (map r_id (ob_rules ob)) (ms_maxid m)).
 
-Fixpoint mon_from (m : mstate) (t : list item) (i : N) : N :=
+Fixpoint mon_from (c : cfg) (m : mstate) (t : list item) (i : N) : N :=
   match t with
   | [] => 0%N
-  | it :: r => if mon_step m it then mon_from (mon_next m it) r (N.succ i) else N.succ i
+  | it :: r => if mon_step c m it then mon_from c (mon_next m it) r (N.succ i) else N.succ i
   end.
 
 Definition check (t : trace) : verdict :=
-  (diff_from (fst t) init (snd t) 0%N, mon_from mstate0 (snd t) 0%N, 0%N).
+  (diff_from (fst t) init (snd t) 0%N, mon_from (fst t) mstate0 (snd t) 0%N, 0%N).
 Definition check_all (ts : list trace) : list verdict := map check ts.
 
 (* ---------- the observations the model itself produces ---------- *)
